@@ -1,0 +1,60 @@
+//go:build verif
+
+// Contracts for package hmtx, checked by /verif/engine (gvc).  This file
+// contains comments only; it is compiled only with the "verif" build tag.
+package hmtx
+
+// Derived hhea fields (OpenType "hhea"): advanceWidthMax is the largest
+// advance width; minLeftSideBearing / minRightSideBearing / xMaxExtent are
+// taken over the glyphs with contours (non-zero extents), rsb = aw - xMax.
+//@ spec isz(info *Info, i int) bool = info.GlyphExtents[i].LLx == 0 && info.GlyphExtents[i].LLy == 0 && info.GlyphExtents[i].URx == 0 && info.GlyphExtents[i].URy == 0
+//@ spec maxW(info *Info, k int) int = ite(k <= 0, 0, ite(info.Widths[k-1] > maxW(info, k-1), info.Widths[k-1], maxW(info, k-1)))
+//@ spec anyInk(info *Info, k int) bool = ite(k <= 0, false, anyInk(info, k-1) || !isz(info, k-1))
+//@ spec rsb(info *Info, i int) int = int16(info.Widths[i] - info.GlyphExtents[i].URx)
+//@ spec minRSB(info *Info, k int) int = ite(k <= 0, 0, ite(isz(info, k-1), minRSB(info, k-1), ite(!anyInk(info, k-1) || rsb(info, k-1) < minRSB(info, k-1), rsb(info, k-1), minRSB(info, k-1))))
+//@ spec maxExt(info *Info, k int) int = ite(k <= 0, 0, ite(isz(info, k-1), maxExt(info, k-1), ite(!anyInk(info, k-1) || info.GlyphExtents[k-1].URx > maxExt(info, k-1), info.GlyphExtents[k-1].URx, maxExt(info, k-1))))
+
+//@ assume func fromAngle(caretAngle float64) (rise int16, run int16)
+//@   modifies nothing
+
+//@ func (info *Info) Encode() (hheaData []byte, hmtxData []byte)   props: C12 C01 C16
+//@   requires info != nil && len(info.Widths) <= 65535 && (info.LSB != nil ==> info.GlyphExtents == nil || len(info.GlyphExtents) == len(info.LSB))
+//@   may_panic
+//@   ensures len(hheaData) == 36
+//@   return_assert info.Widths != nil && lsbs != nil ==> (numGlyphs >= 1 ==> 1 <= numLong) && 0 <= numLong && numLong <= numGlyphs && len(hmtxData) == 4*numLong + 2*(numGlyphs - numLong)
+//@   return_assert info.Widths != nil && lsbs != nil ==> forall k int :: numLong <= k && k < numGlyphs ==> info.Widths[k] == info.Widths[numLong-1]
+//@   return_assert info.Widths != nil && lsbs != nil && numLong > 1 ==> info.Widths[numLong-1] != info.Widths[numLong-2]
+//@   return_assert info.Widths != nil ==> hhea.AdvanceWidthMax == maxW(info, len(info.Widths))
+//@   return_assert info.GlyphExtents != nil && info.Widths != nil ==> hhea.MinRightSideBearing == minRSB(info, len(info.GlyphExtents))
+//@   return_assert info.GlyphExtents != nil ==> hhea.XMaxExtent == maxExt(info, len(info.GlyphExtents))
+//@   modifies nothing
+//@   loop 0
+//@     invariant hhea != nil && fresh(hhea) && hhea.AdvanceWidthMax == maxW(info, iter) && hhea.MinRightSideBearing == 0 && hhea.XMaxExtent == 0
+//@   loop 1
+//@     invariant hhea != nil && fresh(hhea) && len(lsbs) == len(info.GlyphExtents) && fresh(lsbs) && info.LSB == nil
+//@     invariant info.Widths != nil ==> hhea.AdvanceWidthMax == maxW(info, len(info.Widths))
+//@     invariant hhea.MinRightSideBearing == 0 && hhea.XMaxExtent == 0
+//@   loop 2
+//@     invariant hhea != nil && fresh(hhea) && (isnil(lsbs) || fresh(lsbs) || ref(lsbs) == ref(info.LSB)) && (info.GlyphExtents != nil ==> len(info.GlyphExtents) == len(lsbs))
+//@     invariant info.Widths != nil ==> hhea.AdvanceWidthMax == maxW(info, len(info.Widths))
+//@     invariant hhea.MinRightSideBearing == 0 && hhea.XMaxExtent == 0
+//@   loop 3
+//@     invariant hhea != nil && fresh(hhea) && len(info.GlyphExtents) == len(info.Widths) && info.GlyphExtents != nil && info.Widths != nil
+//@     invariant hhea.AdvanceWidthMax == maxW(info, len(info.Widths)) && hhea.XMaxExtent == 0
+//@     invariant hhea.MinRightSideBearing == minRSB(info, iter) && first == !anyInk(info, iter)
+//@   loop 4
+//@     invariant hhea != nil && fresh(hhea) && info.GlyphExtents != nil
+//@     invariant info.Widths != nil ==> hhea.AdvanceWidthMax == maxW(info, len(info.Widths)) && hhea.MinRightSideBearing == minRSB(info, len(info.GlyphExtents))
+//@     invariant hhea.XMaxExtent == maxExt(info, iter) && first == !anyInk(info, iter)
+//@   loop 5
+//@     invariant (numGlyphs >= 1 ==> 1 <= numLong) && 0 <= numLong && numLong <= numGlyphs && numGlyphs == len(info.Widths) && hhea != nil && fresh(hhea) && buf != nil && fresh(buf) && blen(buf) == 0
+//@     invariant forall k int :: numLong <= k && k < numGlyphs ==> info.Widths[k] == info.Widths[numLong-1]
+//@     invariant hhea.AdvanceWidthMax == maxW(info, len(info.Widths)) && (info.GlyphExtents != nil ==> hhea.MinRightSideBearing == minRSB(info, len(info.GlyphExtents)) && hhea.XMaxExtent == maxExt(info, len(info.GlyphExtents)))
+//@     decreases numLong
+//@   loop 6
+//@     invariant 0 <= i && i <= numGlyphs && (numGlyphs >= 1 ==> 1 <= numLong) && 0 <= numLong && numLong <= numGlyphs && numGlyphs == len(info.Widths) && len(lsbs) == numGlyphs && hhea != nil && fresh(hhea) && buf != nil && fresh(buf)
+//@     invariant blen(buf) == 4*min(i, numLong) + 2*max(i - numLong, 0) && len(hheaData) == 36
+//@     invariant forall k int :: numLong <= k && k < numGlyphs ==> info.Widths[k] == info.Widths[numLong-1]
+//@     invariant numLong > 1 ==> info.Widths[numLong-1] != info.Widths[numLong-2]
+//@     invariant hhea.AdvanceWidthMax == maxW(info, len(info.Widths)) && (info.GlyphExtents != nil ==> hhea.MinRightSideBearing == minRSB(info, len(info.GlyphExtents)) && hhea.XMaxExtent == maxExt(info, len(info.GlyphExtents)))
+//@     decreases numGlyphs - i
